@@ -528,8 +528,8 @@ type aff struct {
 	k  int64
 }
 
-func affConst(k int64) aff      { return aff{map[string]int64{}, k} }
-func affVar(v string) aff       { return aff{map[string]int64{v: 1}, 0} }
+func affConst(k int64) aff { return aff{map[string]int64{}, k} }
+func affVar(v string) aff  { return aff{map[string]int64{v: 1}, 0} }
 func (a aff) add(b aff, sign int64) aff {
 	r := aff{map[string]int64{}, a.k + sign*b.k}
 	for v, c := range a.co {
